@@ -62,6 +62,26 @@ def opCmd (args : List String) : String :=
         | .attach i a => s!"A{i}:{showAtt a}")
       s!"{if rtS then 1 else 0} {if rtL then 1 else 0} S[{sTxt}] L[{lTxt}]"
     | none => "parse-error"
+  | "dist" :: rest =>
+    -- ntags tags… nloads (kind par obj all)…  →  written options and "does reading them back give the loads"
+    let kindOf (s : String) : DKind := if s == "cond" then .skinCond else if s == "res" then .skinRes else .coat
+    let kindName : DKind → String
+      | .skinCond => "cond" | .skinRes => "res" | .coat => "coat"
+    let pLoad : P DLoad := do
+      let k ← nextTok; let p ← pNat; let o ← pNat; let a ← pNat
+      pure ⟨kindOf k, p, o, a == 1⟩
+    let prog : P (List Nat × List DLoad) := do
+      let nt ← pNat; let ts ← pRepeat pNat nt
+      let nl ← pNat; let ls ← pRepeat pLoad nl
+      pure (ts, ls)
+    match prog.run rest with
+    | some ((tags, ls), _) =>
+      let opts := writeDist true [] ls
+      let rt := decide (readDist tags opts = ls)
+      let txt := ",".intercalate (opts.map fun o =>
+        s!"{kindName o.kind}:{o.par}:{match o.tag with | none => "all" | some t => toString t}")
+      s!"{if rt then 1 else 0} D[{txt}]"
+    | none => "parse-error"
   | _ => "bad-op"
 
 end Driver
